@@ -26,8 +26,10 @@ TECHNIQUE = ("model-based stateful testing: operation lists interpreted against 
              "of every variable; PEEK/VARPTR/VARPTR$ observations after every step")
 RULE = ("Histories of 4..40 (thorough ..150) operations: create/assign scalars of type % ! # $ "
         "with names of 1..40 characters (shared two-character prefixes, same name with different "
-        "sigils, same name as an array), DIM arrays of 1..3 dimensions (OPTION BASE unset/0/1), "
-        "assign elements, SWAP, ERASE (any position), string re-assignment/growth and FRE(\"\") "
+        "sigils, same name as an array), DIM statements for 1..3 arrays of 1..3 dimensions (OPTION "
+        "BASE unset/0/1, up to 6 live arrays), assign elements, SWAP, ERASE statements naming "
+        "1..4 arrays in any order relative to their allocation order (survivors before, between "
+        "and after the erased ones), optionally followed at once by a new DIM, string re-assignment/growth and FRE(\"\") "
         "(string moves). Values: small literals and arbitrary byte patterns assigned through "
         "CVI/CVS/CVD. Non-trivial: at the time of some check at least two arrays existed, or an "
         "ERASE or a collection with live strings had happened; distinct = distinct operation list.")
@@ -51,6 +53,9 @@ CV = {'%': b'CVI', '!': b'CVS', '#': b'CVD'}
 NAME_CHARS = 'QXZJKVW'
 NAME_TAIL = 'QXZJKVW0123456789.'
 PREFIXES = ['QX', 'QX', 'ZJ', 'K', 'Q', 'QXZ', 'V9', 'W.']
+
+
+MAX_ARRAYS = 6
 
 
 class Stop(Exception):
@@ -351,6 +356,26 @@ class Runner(object):
             items = [it for it in items if it[3] == ty]
         return items
 
+    def do_dim(self, arrs, idx):
+        m = self.m
+        todo = []
+        for a in arrs:
+            name = a['name'] + a['ty']
+            if name in m.arrays or name in [n for n, _, _ in todo] or \
+                    len(m.arrays) + len(todo) >= MAX_ARRAYS:
+                continue
+            todo.append((name, a['ty'], [max(self.base, d) for d in a['dims']]))
+        if not todo:
+            self.res.label('skipped-dim')
+            return False
+        self.run(b'DIM ' + b','.join(b'%s(%s)' % (n.encode(), b','.join(b'%d' % d for d in dims))
+                                     for n, _, dims in todo), 'step %d' % idx)
+        for n, ty, dims in todo:
+            m.arrays[n] = Arr(n, ty, dims, self.base)
+            self.res.label('dims:%d' % len(dims))
+        self.res.label('dim-arrays:%d' % len(todo))
+        return True
+
     def step(self, idx, op):
         m = self.m
         o = op['o']
@@ -368,15 +393,9 @@ class Runner(object):
             m.scalars[name] = b
             touched = [it]
         elif o == 'dim':
-            name = op['name'] + op['ty']
-            if name in m.arrays or len(m.arrays) >= 4:
-                self.res.label('skipped-dim')
+            # one DIM statement for 1..3 arrays (old cases: a single name/ty/dims in the op)
+            if not self.do_dim(op.get('arrs') or [op], idx):
                 return
-            dims = [max(self.base, d) for d in op['dims']]
-            self.run(b'DIM %s(%s)' % (name.encode(), b','.join(b'%d' % d for d in dims)),
-                     'step %d' % idx)
-            m.arrays[name] = Arr(name, op['ty'], dims, self.base)
-            self.res.label('dims:%d' % len(dims))
             full = True
         elif o == 'assign':
             items = self.pick_items()
@@ -411,14 +430,38 @@ class Runner(object):
             m.set(b, va)
             touched = [a, b]
         elif o == 'erase':
+            # one ERASE statement naming 1..4 existing arrays, in the order given by the op
             names = list(m.arrays)
             if not names:
                 return
-            name = names[op['k'] % len(names)]
-            self.res.label('erase:%s' % ('last' if name == names[-1] else 'not-last'))
-            self.run(b'ERASE %s' % name.encode(), 'step %d' % idx)
-            del m.arrays[name]
+            ks = op['k'] if isinstance(op['k'], list) else [op['k']]
+            chosen = []
+            for k in ks:
+                nm = names[k % len(names)]
+                if nm not in chosen:
+                    chosen.append(nm)
+            pos = [names.index(nm) for nm in chosen]
+            survivors = [i for i in range(len(names)) if i not in pos]
+            self.res.label('erase-names:%d' % len(chosen))
+            if len(chosen) == 1:
+                self.res.label('erase:%s' % ('last' if pos[0] == len(names) - 1 else 'not-last'))
+            else:
+                self.res.label('multi-erase:%s' % ('allocation-order' if pos == sorted(pos)
+                                                   else 'other-order'))
+                if any(min(pos) < i < max(pos) for i in survivors):
+                    self.res.label('multi-erase:survivor-between')
+                if any(i > max(pos) for i in survivors):
+                    self.res.label('multi-erase:survivor-after-all')
+                if any(i < min(pos) for i in survivors):
+                    self.res.label('multi-erase:survivor-before')
+            self.run(b'ERASE %s' % b','.join(nm.encode() for nm in chosen), 'step %d' % idx)
+            for nm in chosen:
+                del m.arrays[nm]
             self.erased = True
+            self.observe(idx, [], True, 'after step %d (erase %s)' % (idx, ','.join(chosen)))
+            # optionally allocate again at once: a stale address record shows as an overlap
+            if op.get('redim'):
+                self.do_dim(op['redim'], idx)
             full = True
         elif o == 'gc':
             self.ev(b'FRE("")')
@@ -495,18 +538,22 @@ def gen_val(ch, ty):
     return {'lit': [ch.choice([0, 1, -1, 3, 5, -7, 255, 1027, 8191]), ch.choice([0, 0, 1, 2, 3])]}
 
 
+def gen_arr(ch):
+    nd = ch.choice([1, 1, 2, 2, 3])
+    dims = [ch.int(0, 3) for _ in range(nd)]
+    while (dims[0] + 1) * (dims[1] + 1 if nd > 1 else 1) * (dims[2] + 1 if nd > 2 else 1) > 9:
+        dims[dims.index(max(dims))] -= 1
+    return {'name': gen_name(ch), 'ty': ch.choice(TYPES), 'dims': dims}
+
+
 def gen_op(ch):
-    o = ch.weighted([(22, 'scalar'), (12, 'dim'), (26, 'assign'), (8, 'grow'), (12, 'swap'),
-                     (8, 'erase'), (6, 'gc')])
+    o = ch.weighted([(20, 'scalar'), (16, 'dim'), (26, 'assign'), (8, 'grow'), (12, 'swap'),
+                     (9, 'erase'), (6, 'gc')])
     if o == 'scalar':
         ty = ch.choice(TYPES)
         return {'o': 'scalar', 'name': gen_name(ch), 'ty': ty, 'val': gen_val(ch, ty)}
     if o == 'dim':
-        nd = ch.choice([1, 1, 2, 2, 3])
-        dims = [ch.int(0, 3) for _ in range(nd)]
-        while (dims[0] + 1) * (dims[1] + 1 if nd > 1 else 1) * (dims[2] + 1 if nd > 2 else 1) > 12:
-            dims[dims.index(max(dims))] -= 1
-        return {'o': 'dim', 'name': gen_name(ch), 'ty': ch.choice(TYPES), 'dims': dims}
+        return {'o': 'dim', 'arrs': [gen_arr(ch) for _ in range(ch.choice([1, 1, 2, 2, 3]))]}
     if o == 'assign':
         return {'o': 'assign', 'k': ch.int(0, 999), 'val': {t: gen_val(ch, t) for t in TYPES}}
     if o == 'grow':
@@ -516,7 +563,11 @@ def gen_op(ch):
     if o == 'swap':
         return {'o': 'swap', 'k1': ch.int(0, 999), 'k2': ch.int(0, 999)}
     if o == 'erase':
-        return {'o': 'erase', 'k': ch.int(0, 9)}
+        n = ch.choice([1, 1, 2, 2, 2, 3, 4])
+        op = {'o': 'erase', 'k': [ch.int(0, 11) for _ in range(n)]}
+        if ch.int(0, 2) == 0:
+            op['redim'] = [gen_arr(ch) for _ in range(ch.choice([1, 2]))]
+        return op
     return {'o': 'gc', 'full': bool(ch.int(0, 1))}
 
 
@@ -552,6 +603,25 @@ def units(tier):
 
 
 REGRESSIONS = [
+    # one ERASE statement naming two arrays while an array allocated after the first one survives
+    # (seeded change: address records moved up only for the last erased array)
+    {'base': None, 'ops': [
+        {'o': 'dim', 'arrs': [{'name': 'QA', 'ty': '%', 'dims': [3]},
+                              {'name': 'QB', 'ty': '$', 'dims': [2, 2]},
+                              {'name': 'QC', 'ty': '#', 'dims': [2]},
+                              {'name': 'QD', 'ty': '!', 'dims': [1, 1]}]},
+        {'o': 'assign', 'k': 14, 'val': {'%': {'lit': [7, 0]}, '!': {'raw': [9, 8, 7, 130]},
+                                         '#': {'raw': [1, 2, 3, 4, 5, 6, 7, 140]},
+                                         '$': {'s': 'pq'}}},
+        {'o': 'erase', 'k': [0, 1], 'redim': [{'name': 'QE', 'ty': '%', 'dims': [5]}]},
+        {'o': 'erase', 'k': [2, 0]}]},
+    {'base': 1, 'ops': [
+        {'o': 'dim', 'arrs': [{'name': 'K', 'ty': '$', 'dims': [2]},
+                              {'name': 'K', 'ty': '%', 'dims': [2, 2]}]},
+        {'o': 'dim', 'arrs': [{'name': 'QX', 'ty': '#', 'dims': [3]},
+                              {'name': 'ZJ', 'ty': '!', 'dims': [1, 2]}]},
+        {'o': 'erase', 'k': [2, 0], 'redim': [{'name': 'V9', 'ty': '#', 'dims': [1]},
+                                              {'name': 'W.', 'ty': '$', 'dims': [1]}]}]},
     # fixed 25ee326e: PEEK into the second array returned bytes of the first array's record
     {'base': None, 'ops': [
         {'o': 'dim', 'name': 'QX', 'ty': '%', 'dims': [2]},
